@@ -540,6 +540,8 @@ func (vc *VC) ordinalOf(ins ssa.Instruction, name string) int {
 				n = "recv"
 			case *ssa.Send:
 				n = "send"
+			case *ssa.MapUpdate:
+				n = "mapstore"
 			default:
 				return
 			}
